@@ -325,7 +325,12 @@ func (g *gen) plugin() *AST {
 			st.Handlers = append(st.Handlers, KSig{"h", SigA{"h", g.scope(), g.display()}})
 		}
 		if g.r.chance(0.5) {
-			st.Emitters = append(st.Emitters, KSig{"e", SigA{"e", g.scope(), g.display()}})
+			// half of the time under the ID of the handled signal: one ID on both sides of the step
+			id := "e"
+			if len(st.Handlers) > 0 && g.r.chance(0.5) {
+				id = "h"
+			}
+			st.Emitters = append(st.Emitters, KSig{id, SigA{id, g.scope(), g.display()}})
 		}
 		steps = append(steps, KStep{id, st})
 	}
